@@ -27,7 +27,23 @@ RULE = ("GFA1 graphs of 3-9 segments built from 1-3 chain blueprints with mixed 
 NAMES = ['A', 'B', 'C', 'D', 'E', 'F', 'G', 'H', 'I']
 
 
+# hand-made graphs that run first: hairpins on chain ends traversed forwards and in reverse, a cycle with a closing link,
+# two chains sharing a junction, members with several dependants
+CORPUS = [
+    ['S\tA\tAACC', 'S\tB\tGGTT', 'L\tB\t+\tA\t-\t2M', 'L\tA\t-\tA\t+\t*'],
+    ['S\tA\tAACC', 'S\tB\tGGTT', 'L\tA\t+\tB\t+\t2M', 'L\tB\t+\tB\t-\t1M'],
+    ['S\tA\t*\tLN:i:4', 'S\tB\t*\tLN:i:5', 'S\tC\t*\tLN:i:6', 'L\tA\t-\tB\t+\t*', 'L\tC\t-\tB\t-\t2M', 'L\tA\t+\tA\t-\t3M', 'L\tC\t+\tC\t-\t*'],
+    ['S\tA\tAACC', 'S\tB\tGGTT', 'S\tC\tACGTA', 'L\tA\t+\tB\t+\t1M', 'L\tB\t+\tC\t+\t1M', 'L\tC\t+\tA\t+\t*'],
+    ['S\tA\t*', 'S\tB\t*', 'S\tJ\t*', 'S\tC\t*', 'S\tD\t*', 'L\tA\t+\tB\t+\t*', 'L\tB\t+\tJ\t+\t*', 'L\tC\t-\tD\t-\t*', 'L\tD\t-\tJ\t+\t*'],
+    ['S\tA\tAACC', 'S\tB\tGGTT', 'S\tX\t*', 'L\tA\t+\tB\t+\t2M', 'C\tA\t+\tX\t+\t0\t*', 'C\tA\t+\tX\t-\t1\t*', 'C\tX\t+\tB\t+\t0\t*',
+     'P\tp\tA+,B+\t2M', 'P\tq\tA+,B+\t*'],
+]
+
+
 def gen_case(rng, i):
+    if i < len(CORPUS):
+        return {'kind': 'linear', 'version': 'gfa1', 'lines': list(CORPUS[i]),
+                'notes': {'chains': 1, 'cycle': False, 'hairpin': True, 'badcigar': False}}
     nseg = rng.randint(3, 9)
     names = rng.sample(NAMES, nseg)
     withseq = rng.random() < 0.75
@@ -88,9 +104,17 @@ def gen_case(rng, i):
         links[k] = '\t'.join(f)
         notes['badcigar'] = True
     lines += links
-    for _ in range(rng.randint(0, 2)):
+    for _ in range(rng.randint(0, 4)):
         a, b = rng.sample(names, 2)
-        lines.append('C\t%s\t+\t%s\t%s\t1\t3M' % (a, b, rng.choice('+-')))
+        c = 'C\t%s\t+\t%s\t%s\t%d\t3M' % (a, b, rng.choice('+-'), rng.choice([0, 1, 2]))
+        if c not in lines:
+            lines.append(c)
+    # paths over links (several per link): they depend on the links and go when a member goes
+    ls = [l.split('\t') for l in links]
+    for k in range(rng.randint(0, 3)):
+        if ls:
+            f = rng.choice(ls)
+            lines.append('P\tp%d\t%s%s,%s%s\t%s' % (k, f[1], f[2], f[3], f[4], rng.choice(['*', f[5]])))
     if rng.random() < 0.4:
         head = lines[:nseg]
         tail = lines[nseg:]
@@ -237,6 +261,13 @@ def judge(case):
     if sorted(want_links) != sorted(got_links):
         out.append(('the dovetails after merging are not the outward dovetails of the chains re-attached to the merged segments plus the untouched ones',
                     sorted(want_links), sorted(got_links)))
+    for l in after:
+        f = l.split('\t')
+        ment = [f[1], f[3]] if f[0] in 'LC' else ([x[:-1] for x in f[2].split(',')] if f[0] == 'P' else [])
+        gone = [x for x in ment if x in member_of]
+        if gone:
+            out.append(('after merging a line still mentions the removed member %s' % gone[0], None, l))
+            break
     keep = sorted(l for l in before if l.split('\t')[0] in 'SC' and not any(x in member_of for x in
                   ([l.split('\t')[1]] if l[0] == 'S' else [l.split('\t')[1], l.split('\t')[3]])))
     rest = sorted(l for l in after if l.split('\t')[0] in 'SC' and l.split('\t')[1] not in merged_names)
